@@ -112,6 +112,19 @@ func init() {
 			return h, true
 		}
 	}
+	// reflect.Value.Call: applies the function value; it may panic. Each application is appended to
+	// the ghost trace (callCount, callSeq) when the unit asks for it.
+	libModels["reflect.Value.Call"] = func(x *Exec, st *State, e *ast.CallExpr, a []Value, _ []types.Type) (Value, bool) {
+		if cc, ok := st.names["callCount"]; ok {
+			n := asTerm(cc)
+			seq := asTerm(st.names["callSeq"])
+			st.names["callSeq"] = Term{"(store " + seq.S + " " + n.S + " " + asTerm(a[0]).S + ")", seq.Sort}
+			st.names["callCount"] = Term{"(+ " + n.S + " 1)", SInt}
+		}
+		st.names["$pendingPanic"] = "reflect.Value.Call"
+		x.noteAssume("trusted: reflect.Value.Call applies its receiver once and may panic")
+		return x.newRef(st, "callres"), true
+	}
 	// reflect.Select: blocks until one case can proceed; returns its index. The case vector and the
 	// chosen index are exposed to contracts as the ghost names selCases / selChosen / selCalled.
 	libModels["reflect.Select"] = func(x *Exec, st *State, e *ast.CallExpr, a []Value, at []types.Type) (Value, bool) {
@@ -751,6 +764,10 @@ func (x *Exec) evalSpecCall(e *ast.CallExpr, st *State) (Value, types.Type) {
 			q = "exists"
 		}
 		return Term{"(" + q + " ((" + qn + " String)) " + body + ")", SBool}, types.Typ[types.Bool]
+	case "calledAt": // calledAt(k): the k-th function value applied through reflect.Value.Call
+		k := x.evalT(e.Args[0], st)
+		seq := asTerm(st.names["callSeq"])
+		return Term{"(select " + seq.S + " " + k.S + ")", SInt}, nil
 	case "atSelect": // evaluate in the state in which reflect.Select was called (current state if it was not)
 		if snap, ok := st.names["$selState"].(*State); ok {
 			tmp := snap.clone()
